@@ -58,19 +58,23 @@ func (Engine) Describe(prop string) kernel.Describe {
 		d.Rule = "one run = one stream of 1-10 well-formed envelopes (60% of runs biased to encodings longer than a 1460-byte segment) sent with the real ioConn.Send and received with ioConn.Recv under each delivery schedule, with the native and the protobuf serializer; evaluations = (stream, serializer, schedule) triples. For every schedule every envelope must be decoded, in order, with a canonical (native) encoding equal to that of the sent envelope and to what the same serializer decodes from the unchunked stream. The first 2x17 (quick) runs enumerate every single split position of a stream of at most 1 KiB; longer streams get 64 sampled single splits. Non-trivial run = some schedule cut inside a frame; distinct = distinct scenario digests. " + shapes
 		d.FaultKinds = []string{"partition.one (one byte per read)", "partition.seg (segments of 1460 / other sizes)", "partition.writes (every write of the sender arrives separately)",
 			"partition.wsub (random coalescing of writes)", "partition.bounds (cuts at field/frame boundaries -1, +1 and all three)", "partition.rand (random pieces, six size scales)",
-			"partition.split (single split)", "partition.split-enum (all single splits)"}
+			"partition.split (single split)", "partition.split-enum (all single splits)",
+			"readto (one expired read deadline at a stream offset - all offsets of short streams - after which the stream goes on)",
+			"interleave (a Recv waits at an offset while another connection of the process receives the same envelopes in rotated order)",
+			"writeerr (a Write fails, is short, or is partial and then times out)", "badsend / edge (an envelope that cannot be encoded, or at the frame size limit, between well-formed ones)"}
 		d.Assumptions = []string{"the stream stays open: a Read never returns io.EOF together with data, and (0, nil) only for a zero-length buffer (a reader reporting end-of-file with the last bytes is a closed connection, excluded by the property)",
 			"a Read that needs a byte that was never sent fails with an error (on a real open connection it would block forever); either way the envelope is not decoded",
 			"chunking of the writer is modelled as delivery cuts at the recorded write boundaries of the real encoder",
 			"envelopes fit the protobuf frame (64 KiB) and texts are valid UTF-8, as the protobuf encoder requires"}
 	case "C14":
 		d.Rule = "one run = one stream of 1-20 values back to back (60% envelopes, else State, Allocation, Balances, SubAlloc, Params, Transaction, wallet/wire address maps and arrays, a tuple of all perunio primitives); evaluations = decodes. Each value is decoded from the stream with its real decoder: no error, reader position exactly at the end of the value's bytes, harness's own field-by-field comparison with the sent value (absent and empty signatures are different), re-encoding byte-identical to the bytes read, every carried signature verifies on the decoded state, Params.ID() and State.ID unchanged. The envelopes of the run also go through the protobuf serializer on a second stream with the same checks, and the protobuf-decoded envelope must encode natively to the same bytes as the natively decoded one. Non-trivial run = at least two values; distinct = distinct scenario digests. " + shapes
-		d.FaultKinds = []string{}
-		d.Assumptions = []string{"no chunking in this check (reads return what they ask for; C16 varies delivery)", "only backend 0 (sim) is registered, as in every build of this repository, so address maps have 0 or 1 entries",
+		d.FaultKinds = []string{"stream delivered in pieces of 1-64 bytes (40 % of the runs)", "2-3 concurrent senders on slow simulated connections (20 % of the runs)"}
+		d.Assumptions = []string{"delivery in pieces of one size per run only (C16 varies delivery fully)", "only backend 0 (sim) is registered, as in every build of this repository, so address maps have 0 or 1 entries",
 			"envelopes fit the protobuf frame (64 KiB) and texts are valid UTF-8, as the protobuf encoder requires", "a ChannelSync transaction always has a state (a nil state cannot be converted by the protobuf encoder)"}
 	case "C13":
 		d.Rule = "one run = a batch of ~1400 faulty decodes of one family (17 envelope types, 11 value kinds, in turn): 3-5 well-formed base values, every truncation offset of the first one with every decoder (enumerated up to 2 KiB, 256 sampled beyond), and ~600 explicit faults. Decoders: ioConn.Recv with the native and with the protobuf serializer, wire.DecodeMsg, and Decode of State, Allocation, Balances, SubAlloc, Params, Transaction, wallet/wire address maps and arrays, primitives. Each decode runs under recover in the calling goroutine: a panic is a violation named by the innermost go-perun frame; a successful decode must respect MaxNumAssets, MaxNumParts, MaxNumSubAllocations and MaxBigIntLength; a decoding process killed by the runtime's out-of-memory (or stack-overflow) error under the address-space limit is a violation named the same way; an encoding whose dimension field was set above the limit must not decode without error. Evaluations = decodes; non-trivial run = some mutant decoded and some was rejected. Structure-aware mutations (length fields from the encoder's write boundaries, protobuf messages rebuilt through the generated types) are input generation. " + shapes
 		d.FaultKinds = []string{"trunc / trunc-enum (stream ends after k bytes)", "flip (1-3 bits)", "len (a 1/2/4-byte length, count, backend-id, type or flag field overwritten with -1, 0, limit, limit+1, 2^15, 2^16-1, 2^31-1; little- and big-endian; optionally with zero bytes supplied for the announced elements)",
+			"stall / stall-enum (after k bytes - every k - the reader's deadline has expired for good: every further Read reports os.ErrDeadlineExceeded; a decoder that asks 2000 more times does not terminate)",
 			"splice (head of one message, tail of another)", "rand (random bytes)", "randtail (valid prefix, random rest)", "cross (bytes of one serializer fed to the other)",
 			"pb (protobuf message rebuilt with a repeated field shortened, duplicated, emptied or grown to 1025, a sub-message removed or emptied, a bytes field emptied / resized / set to a 4-byte backend id, a scalar set to a boundary value)"}
 		d.Assumptions = []string{"the decodes of a batch run in a child process of the worker (same binary) whose address space is limited to 32 GiB (RLIMIT_AS): a decoder that makes the runtime die with out-of-memory under that limit counts as not terminating with a value or an error; no deployment hands 32 GiB to the decoding of a message of at most 64 KiB. The worker names the decode in flight from a marker the child writes before each decode and the innermost go-perun frame of the crash output",
